@@ -530,7 +530,7 @@ def run(tier):
     ] + ([dict(name="client-control-raises-1", dt=200, client_control_raises_at=1), dict(name="client-control-raises-3", dt=100, client_control_raises_at=3)] if thorough else [])
     for cfg in cfgs:
         cfg["rich"] = thorough
-        c04.explore(rep, {"C02"}, alphabet, tier, [cfg], depth_q=4 if cfg["name"] in ("default", "slow") else 3, depth_t=5 if cfg["name"] == "default" else 4, dev_k_q=0, dev_k_t=0, horizon=0, run=_run)
+        c04.explore(rep, {"C02"}, alphabet, tier, [cfg], depth_q=4 if cfg["name"] in ("default", "slow") else 3, depth_t=4, dev_k_q=0, dev_k_t=0, horizon=0, run=_run)
     # a runner without lay offers (one empty ladder side); the flumine loggers raised to CRITICAL
     nolay = {k: (dict(v, atl=[]) if k == 1 else v) for k, v in L.BOOK0.items()}
     for cfg in (dict(name="no-lay-offers", dt=200, book0=nolay), dict(name="quiet-logging", dt=200, loglevel=50)):
